@@ -295,3 +295,141 @@ def u_lock(c):
     else:
         c.cover("lock/release")
         c.oblige("post/was-locked", And(v0 < 1, len(called) == 1))
+
+
+@unit("C33", "_garbage_collect", [(M, "_TimeoutGarbageCollector._garbage_collect")],
+      bounded="waiter queue length <= 3 (future states and the timeout counter symbolic)")
+def u_gc(c):
+    """Purge of timed-out waiters: keeps exactly the not-done waiters, in arrival order."""
+    s, g = mk_sem(c)
+    c.assume(inv(c, s, g))
+    W, snap, t0, v0 = list(s._waiters), H.HeapSnap(c), s._timeouts, s._value
+    out = c.call(c.fn(M, "_TimeoutGarbageCollector._garbage_collect"), s)
+    c.only_raises(out, ())
+    if out.raised:
+        return
+    c.cover("gc/normal")
+    now = list(s._waiters)
+    if t0 + 1 > 100:
+        keep = [w for w in W if snap.st_of(w) == PENDING]       # forks on symbolic states
+        c.oblige("post/purge-keeps-live-waiters-in-arrival-order",
+                 len(now) == len(keep) and all(a is b for a, b in zip(now, keep)))
+        c.oblige("post/counter-reset", s._timeouts == 0)
+    else:
+        c.oblige("post/no-purge-queue-unchanged", len(now) == len(W) and all(a is b for a, b in zip(now, W)))
+        c.oblige("post/counter-incremented", s._timeouts == t0 + 1)
+    c.oblige("frame/futures-and-permits-unchanged", And(H.heap_eq(c, snap), s._value == v0), kind="frame")
+    c.oblige("inv/preserved", inv(c, s, g), kind="inv-preserve")
+
+
+# ---------------------------------------------------------------------------------------------
+# Bounded run-time stand-in (history level): the real Semaphore / BoundedSemaphore / Lock on a
+# virtual-time loop, every operation checked against the statement's user-visible reading.
+def standin(tier, seed):
+    import asyncio
+    import datetime
+    from pyvc.standin import vloop, hist
+    import tornado.locks as L
+    import tornado.util
+
+    OPS = ["acq", "acq_t1", "acq_t0", "rel", "tick", "adv1", "cancel0", "cancel_last"]
+
+    def run(seq, kind="Semaphore", initial=1):
+        async def main(v):
+            sem = getattr(L, kind)(initial) if kind != "Lock" else L.Lock()
+            init = 1 if kind == "Lock" else initial
+            permits = init
+            waiters = []      # user-visible futures in arrival order: [fut, deadline|None, we_cancelled]
+            nontriv = False
+            for op in seq:
+                if op.startswith("acq"):
+                    t = None if op == "acq" else (v.now + 1 if op == "acq_t1" else datetime.timedelta(0))
+                    f = sem.acquire(t)
+                    f = asyncio.ensure_future(f) if not asyncio.isfuture(f) else f
+                    dl = None if t is None else (v.now + 1 if op == "acq_t1" else v.now)
+                    if permits > 0:
+                        if not (f.done() and not f.cancelled() and f.exception() is None):
+                            return "acquire with a free permit did not grant immediately", nontriv
+                        permits -= 1
+                    else:
+                        if f.done():
+                            return "acquire without a free permit completed immediately: %r" % f, nontriv
+                        waiters.append([f, dl, False])
+                elif op == "rel":
+                    live = [w for w in waiters if not w[0].done()]
+                    before = permits
+                    try:
+                        sem.release()
+                    except (ValueError, RuntimeError) as e:
+                        over = (kind != "Semaphore") and permits >= init and not live
+                        if not over:
+                            return "release raised %r although not over-released" % e, nontriv
+                        continue
+                    if kind != "Semaphore" and permits >= init and not live:
+                        return "release beyond the initial value did not raise", nontriv
+                    if live:
+                        nontriv = True
+                        g = live[0][0]
+                        if not (g.done() and not g.cancelled() and g.exception() is None):
+                            return "release with live waiters did not grant the first live waiter (arrival order)", nontriv
+                        for w in live[1:]:
+                            if w[0].done():
+                                return "release completed more than one waiter", nontriv
+                    else:
+                        permits += 1
+                elif op == "tick":
+                    await v.tick()
+                elif op == "adv1":
+                    v.advance(1.5)
+                elif op == "cancel0" or op == "cancel_last":
+                    live = [w for w in waiters if not w[0].done()]
+                    if live:
+                        w = live[0] if op == "cancel0" else live[-1]
+                        w[0].cancel()
+                        w[2] = True
+                # after every step: waiters that completed outside release() must be timed out /
+                # cancelled, never granted; granted-and-unreleased never exceeds the initial value
+                for w in waiters:
+                    f = w[0]
+                    if f.done() and not w[2] and not f.cancelled() and f.exception() is None and not getattr(f, "_seen_grant", False):
+                        f._seen_grant = True
+                    if f.done() and not f.cancelled() and f.exception() is not None:
+                        if not isinstance(f.exception(), tornado.util.TimeoutError):
+                            return "waiter failed with %r" % f.exception(), nontriv
+                        if w[1] is None or v.now < w[1]:
+                            return "waiter timed out before its deadline / without a timeout", nontriv
+                if sem._value if kind != "Lock" else sem._block._value:
+                    pass
+                val = sem._block._value if kind == "Lock" else sem._value
+                if val != permits:
+                    return "free permits %r differ from the reference count %r (grant/release accounting)" % (val, permits), nontriv
+                if permits > 0 and any(not w[0].done() for w in waiters):
+                    return "a permit is idle while a live waiter waits", nontriv
+                if permits > init and kind != "Semaphore":
+                    return "more permits than the initial value", nontriv
+            await v.settle()
+            # timed waiters whose deadline passed must have been resolved by now
+            for w in waiters:
+                if not w[0].done() and w[1] is not None and v.now >= w[1]:
+                    return "timed-out waiter still pending after its deadline", nontriv
+            return None, nontriv
+        fail, nontriv = vloop.run_history(main)
+        return fail, nontriv, (kind, initial, seq)
+
+    budget = 12 if tier == "quick" else 240
+    res = None
+    for kind, initial in (("Semaphore", 1), ("BoundedSemaphore", 1), ("Lock", 1), ("Semaphore", 2), ("Semaphore", 0)):
+        r = hist.explore(OPS, lambda s, k=kind, i=initial: run(s, k, i), 3 if tier == "quick" else 5, 9,
+                         budget / 5.0, seed)
+        if res is None:
+            res = r
+        else:
+            for k in ("evaluations", "distinct_nontrivial"):
+                res[k] += r[k]
+            res["failures"] += r["failures"]
+            res["samples"] += r["samples"][:1]
+        if res["failures"]:
+            break
+    res["rule"] = ("op sequences over %s on the real Semaphore/BoundedSemaphore/Lock with a virtual-time loop (one loop iteration per "
+                   "'tick'): exhaustive to depth %d, seeded random to length 9; non-trivial = a release met a live waiter" % (OPS, 3 if tier == "quick" else 5))
+    return res
